@@ -308,7 +308,6 @@ package ugo
 //@ ensures[reuse]  err == nil && vm.curFrame == old(vm.curFrame) ==> vm.curFrame.errHandlers == nil && vm.ip == -1
 //@ ensures[fresh]  err == nil && vm.curFrame != old(vm.curFrame) ==> vm.curFrame.errHandlers == nil && vm.curFrame.fn == cfunc && vm.curFrame.basePointer == old(vm.sp)-numArgs && vm.ip == -1 && vm.sp == old(vm.sp)-numArgs+cfunc.NumLocals
 //@ ensures[error]  err != nil ==> vm.curFrame == old(vm.curFrame) && vm.ip == old(vm.ip)
-//@ ensures[tailonly] err == nil && vm.curFrame == old(vm.curFrame) ==> old(vm.curInsts[vm.ip+3]) == byte(OpReturn)
 //@ ensures[bind]     err == nil && flags == 0 ==> forall i int :: 0 <= i && i < specFixedParams(cfunc) ==> vm.stack[vm.curFrame.basePointer+i] == old(verifrt.Snap(vm.stack[:]))[old(vm.sp)-numArgs+i]
 //@ ensures[bindrest] err == nil && flags == 0 && cfunc.Variadic && cfunc.NumParams >= 1 ==> specVarArgs(vm.stack[vm.curFrame.basePointer+cfunc.NumParams-1], old(verifrt.Snap(vm.stack[:]))[old(vm.sp)-numArgs+cfunc.NumParams-1:old(vm.sp)])
 //@ ensures[undef]    err == nil ==> forall i int :: cfunc.NumParams <= i && i < cfunc.NumLocals ==> vm.stack[vm.curFrame.basePointer+i] == Undefined
@@ -536,3 +535,16 @@ package ugo
 //@ modifies vm.stack
 //@ split returns
 //@ property C14 C02
+
+// C02 only: the frame is re-used only when the instruction after the call is
+// RETURN, i.e. when the continuation returns exactly the call's value. (Known
+// open finding: the CALL; POP; RETURN shape is also executed as a tail call.)
+//@ func+ (*VM).xOpCallCompiled
+//@ params vm cfunc numArgs flags
+//@ results err
+//@ requires vmCallOK(vm, cfunc, numArgs) && (flags == 0 || (flags == 1 && numArgs >= 1))
+//@ ensures[tailonly] err == nil && vm.curFrame == old(vm.curFrame) ==> old(vm.curInsts[vm.ip+3]) == byte(OpReturn)
+//@ loop 0 invariant vm.curFrame == old(vm.curFrame)
+//@ loop 1 invariant vm.curFrame == old(vm.curFrame)
+//@ split returns
+//@ property C02
